@@ -174,6 +174,14 @@ fn main() {
             };
             let mut accs = Vec::new();
             let mut custom = Vec::new();
+            let mut indexed = Vec::new();
+            let re_idx = Regex::new(r"(?m)^    pub fn set_(\w+)\(&mut self, \w+: (crate::\w+::\w+), index: (\w+)\) \{").unwrap();
+            for c in re_idx.captures_iter(block) {
+                let name = c[1].to_string();
+                if block.contains(&format!("pub fn {}(&self, index: {}) ->", name, &c[3])) {
+                    indexed.push(format!("({}, set_{}, {}, {})", name, name, c[2].replace("crate::", "wow_world_messages::"), &c[3]));
+                }
+            }
             for c in re_set.captures_iter(block) {
                 let name = &c[1];
                 let args = c[2].trim();
@@ -194,7 +202,7 @@ fn main() {
                 }
             }
             let variant = ty.trim_start_matches("Update");
-            writeln!(um, "    um_kind!({}, {}, {}Builder, {}, [{}], custom: [{}]),", exp, ty, ty, variant, accs.join(", "), custom.join(", ")).unwrap();
+            writeln!(um, "    um_kind!({}, {}, {}Builder, {}, [{}], custom: [{}], indexed: [{}]),", exp, ty, ty, variant, accs.join(", "), custom.join(", "), indexed.join(", ")).unwrap();
         }
     }
     let out = format!(
